@@ -280,7 +280,8 @@ theorem wss_sumSimplify {S : List Name} {e : Expr} {rs : List Var} (he : Expr.ws
       intro h0
       rw [h0] at hperm
       exact hne hperm.symm.eq_nil
-    simp only
+    have hg : ((dedup' (c.map Var.base)).length != c.length) = false := dupBase_false_iff.mpr hn
+    simp only [hg, Bool.false_eq_true, if_false]
     rw [dedup'_of_nodup (nodup_map_base hn)] at *
     split
     · rfl
